@@ -41,6 +41,7 @@ EXPECT = [
     ("descends a list nested in a list", ["C10"]),
     ("NewMapGob returned a partly decoded", ["C15"]),
     ("NewMapJson returned a partly filled", ["C15"]),
+    ("element named like a reserved key", ["C15"]),
     ("namespace prefix contains", ["C15"]),
 ]
 
